@@ -84,6 +84,7 @@ class Index:
         pkgdir = os.path.join(self.root, package)
         if not os.path.isdir(pkgdir):
             raise AnchorMissing(f"package directory {pkgdir} not found")
+        parsed = []
         for dirpath, dirnames, filenames in os.walk(pkgdir):
             dirnames[:] = sorted(d for d in dirnames if d != "__pycache__")
             for fn in sorted(filenames):
@@ -104,15 +105,37 @@ class Index:
                 except (SyntaxError, UnicodeDecodeError) as e:
                     self.parse_errors.append(f"{rel}: {e}")
                     continue
-                norm = {"renamed": {}, "inlined": {}}
-                if os.environ.get("BNPSA_NO_NORMALIZE") != "1":
-                    from . import normalize
-                    norm = normalize.normalize_module(tree, mod)
-                mi = ModuleInfo(mod, path, rel, src, tree)
-                mi.norm = norm
-                mi.is_pkg = fn == "__init__.py"
-                self._index_module(mi)
-                self.modules[mod] = mi
+                parsed.append((fn, path, rel, mod, src, tree))
+        # which keyword names are passed to which callee names anywhere in the package (a new optional parameter that some caller already passes is not defaulted away)
+        kwuse: Dict[str, set] = {}
+        def _collect(node, optional):
+            """optional = optional parameters of the enclosing functions: `f(p=p)` with p one of them only threads an option through"""
+            for ch in ast.iter_child_nodes(node):
+                opt = optional
+                if isinstance(ch, (ast.FunctionDef, ast.AsyncFunctionDef)):
+                    a = ch.args
+                    pos = a.posonlyargs + a.args
+                    opt = optional | {x.arg for x in pos[len(pos) - len(a.defaults):]} | {x.arg for x, d in zip(a.kwonlyargs, a.kw_defaults) if d is not None}
+                if isinstance(ch, ast.Call) and ch.keywords:
+                    callee = ch.func.attr if isinstance(ch.func, ast.Attribute) else ch.func.id if isinstance(ch.func, ast.Name) else None
+                    if callee:
+                        for k in ch.keywords:
+                            if k.arg and not (isinstance(k.value, ast.Name) and k.value.id == k.arg and k.arg in optional):
+                                kwuse.setdefault(k.arg, set()).add(callee)
+                _collect(ch, opt)
+        for _, _, _, _, _, tree in parsed:
+            _collect(tree, set())
+        for fn, path, rel, mod, src, tree in parsed:
+            norm = {"renamed": {}, "inlined": {}}
+            if os.environ.get("BNPSA_NO_NORMALIZE") != "1":
+                from . import normalize
+                normalize.PACKAGE_KEYWORD_USE = kwuse
+                norm = normalize.normalize_module(tree, mod)
+            mi = ModuleInfo(mod, path, rel, src, tree)
+            mi.norm = norm
+            mi.is_pkg = fn == "__init__.py"
+            self._index_module(mi)
+            self.modules[mod] = mi
 
     # ------------------------------------------------------------------ indexing
     def _index_module(self, mi: ModuleInfo):
